@@ -202,7 +202,11 @@ class MultipartDecoder:
                 disposition, extra = parse_options_header(
                     headers["content-disposition"]
                 )
-                name = t.cast(str, extra.get("name"))
+                name = extra.get("name")
+
+                if name is None:
+                    raise ValueError("Missing name in Content-Disposition header")
+
                 filename = extra.get("filename")
                 if filename is not None:
                     event = File(
